@@ -79,6 +79,7 @@ type PkgContracts struct {
 	Files   []*ast.File
 	GenSrc  string
 	Scan    map[string]int // assumption scan counts
+	Uninterp map[string]bool
 }
 
 var clauseKW = map[string]bool{"func": true, "requires": true, "ensures": true, "pure": true, "trusted": true,
@@ -676,6 +677,8 @@ func (pc *PkgContracts) generate(locals map[string]localInfo) (string, error) {
 	body.WriteString(`
 func old[T any](x T) T { return x }
 func allrefs[T any](f func(p *T) bool) bool { return true }
+func pow2(k int) int { return 1 << uint(k) }
+func bigval(x *verifbig.Int) int { return int(x.Int64()) }
 func forall(lo, hi int, f func(i int) bool) bool {
 	for i := lo; i < hi; i++ {
 		if !f(i) {
@@ -693,7 +696,14 @@ func exists(lo, hi int, f func(i int) bool) bool {
 	return false
 }
 `)
+	pc.Uninterp = map[string]bool{}
 	for _, l := range pc.Raw {
+		if strings.HasPrefix(l, "func ") && !strings.Contains(l, "{") {
+			// bodyless declaration = uninterpreted specification function
+			name := strings.TrimSpace(l[5:strings.Index(l, "(")])
+			pc.Uninterp[name] = true
+			l += ` { panic("uninterpreted specification function") }`
+		}
 		body.WriteString(l + "\n")
 	}
 	for _, fc := range pc.Funcs {
@@ -828,7 +838,7 @@ func exists(lo, hi int, f func(i int) bool) bool {
 	}
 	text := body.String()
 	var hdr strings.Builder
-	fmt.Fprintf(&hdr, "package %s\n\n", pc.Name)
+	fmt.Fprintf(&hdr, "package %s\n\nimport verifbig \"math/big\"\n", pc.Name)
 	for _, name := range sortedKeys(fileImports) {
 		re := regexp.MustCompile(`\b` + regexp.QuoteMeta(name) + `\.`)
 		if re.MatchString(text) {
